@@ -8,7 +8,7 @@ from .common import MachineryError
 from .verdict import pmap
 
 CFGS = {
-    'quick': ['PopLayout_quick1.cfg', 'PopLayout_quick2.cfg'],
+    'quick': ['PopLayout_quick1.cfg', 'PopLayout_quick2.cfg', 'PopLayout_quick3.cfg'],
     'thorough': ['PopLayout_thorough.cfg', 'PopLayout_fixed2.cfg', 'PopLayout_cov2.cfg'],
 }
 
